@@ -228,6 +228,46 @@ pub fn run(ctx: &mut Ctx) {
                     }
                     _ => {}
                 }
+                // typed entry points: from_reader must agree with from_slice (intact documents, all headers)
+                if vi == 0 {
+                    let sched = [rng.range_usize(1, 9), rng.range_usize(1, 40)];
+                    let r = catch(|| {
+                        let a = (
+                            sourcemap::SourceMap::from_slice(&bytes).map(DecodedMap::Regular),
+                            sourcemap::SourceMapIndex::from_slice(&bytes).map(DecodedMap::Index),
+                            sourcemap::SourceMapHermes::from_slice(&bytes).map(DecodedMap::Hermes),
+                        );
+                        let b = (
+                            sourcemap::SourceMap::from_reader(Chunked::new(&bytes, &sched)).map(DecodedMap::Regular),
+                            sourcemap::SourceMapIndex::from_reader(Chunked::new(&bytes, &sched)).map(DecodedMap::Index),
+                            sourcemap::SourceMapHermes::from_reader(Chunked::new(&bytes, &sched)).map(DecodedMap::Hermes),
+                        );
+                        [(outcome(a.0), outcome(b.0)), (outcome(a.1), outcome(b.1)), (outcome(a.2), outcome(b.2))]
+                    });
+                    ctx.op_n("typed from_slice/from_reader", 6);
+                    match r {
+                        Err(p) => ctx.violation(&panic_sig(&p), "docs", n, format!("typed entry point panicked: {p}"), json!({"bytes": String::from_utf8_lossy(&bytes)})),
+                        Ok(pairs) => {
+                            let mut oks = 0;
+                            for (k, (a, b)) in pairs.iter().enumerate() {
+                                let which = ["SourceMap", "SourceMapIndex", "SourceMapHermes"][k];
+                                match same(a, b) {
+                                    Ok("both-ok") => oks += 1,
+                                    Ok(_) => {}
+                                    Err(d) => ctx.violation("typed-reader-vs-slice", "docs", n, format!("{which}::from_slice vs {which}::from_reader (header {hkind}): {d}"), json!({"bytes": String::from_utf8_lossy(&bytes), "chunks": sched})),
+                                }
+                            }
+                            // exactly one typed entry point accepts a document the generic one accepts
+                            if let Outcome::Ok(_) = slice_out {
+                                if oks != 1 {
+                                    ctx.violation("typed-entry-points-kind", "docs", n, format!("{oks} of the three typed entry points accept a document that decode_slice accepts"), json!({"bytes": String::from_utf8_lossy(&bytes)}));
+                                } else {
+                                    ctx.bucket("typed-entry-points-agree");
+                                }
+                            }
+                        }
+                    }
+                }
                 // every schedule against the slice result
                 let scheds = schedules(bytes.len(), h.len(), &mut rng, vi == 0 && !miri);
                 let scheds: Vec<_> = if vi == 0 { scheds } else { scheds.into_iter().filter(|_| rng.chance(1, 3)).collect() };
